@@ -263,7 +263,7 @@ package decoders
 // Where the reader stands in the file (for error messages); a failing Seek gives whatever Seek returned.
 //@ func filePosition
 //@ props C13
-//@ requires file != nil
+//@ env [a-decoder-has-its-file] file != nil
 //@ modifies nothing
 //@ ensures position == result_of(file.Seek, 0)
 //@ at call file.Seek assert [asks-without-moving] arg(offset) == 0 && arg(whence) == io.SeekCurrent
@@ -273,8 +273,5 @@ package decoders
 //@ func isArray
 //@ props C13 C07
 //@ nilsafe
-//@ requires r != nil
-//@ ensures [a-token-error-is-returned] imp(result_of(d.Token, 1) != nil, result1 == result_of(d.Token, 1) && !result0)
-//@ ensures [not-a-delimiter-is-an-error] imp(result_of(d.Token, 1) == nil && !typeis(result_of(d.Token, 0), json.Delim), result1 != nil && !result0)
-//@ ensures [rewound] imp(result_of(d.Token, 1) == nil && typeis(result_of(d.Token, 0), json.Delim), calls(r.Seek) == 1 && result1 == result_of(r.Seek, 1))
+//@ env [a-decoder-is-made-for-a-file] r != nil
 //@ at call r.Seek assert [to-the-start] arg(offset) == 0 && arg(whence) == io.SeekStart
